@@ -187,7 +187,7 @@ def run_lemma(lemma, timeout_ms=10000, configure=None):
         ob = sess.lemma_obligation(lemma)
         # vacuity guard: hypotheses satisfiable
         s = z3.Solver()
-        s.set("timeout", min(timeout_ms, 5000))
+        s.set("timeout", min(timeout_ms, 1500))
         for a in ob.assumptions:
             s.add(a)
         out["info"]["hypotheses_sat"] = str(s.check())
